@@ -30,6 +30,9 @@ CODES = {
     "BCH(7,4)": spec("BCHCodeEncoder", mu=3, delta=3),
     "Repetition(4)": spec("RepetitionCodeEncoder", repetition_factor=4),
     "SPC(3)": spec("SingleParityCheckCodeEncoder", dimension=3),
+    "SPC(5)": spec("SingleParityCheckCodeEncoder", dimension=5),
+    "SPC(7)": spec("SingleParityCheckCodeEncoder", dimension=7),
+    "Repetition(6)": spec("RepetitionCodeEncoder", repetition_factor=6),
     "LDPC(6,3)": spec("LDPCCodeEncoder", check_matrix=T([[1, 0, 1, 1, 0, 0], [0, 1, 1, 0, 1, 0], [0, 0, 0, 1, 1, 1]])),
 }
 
@@ -50,7 +53,7 @@ def mk_decoder(kind, enc):
 
 
 def modem_by_name(name):
-    return [m for m in modem_specs(max_order=16) if m["name"] == name][0]
+    return [m for m in modem_specs(max_order=256) if m["name"] == name][0]
 
 
 def build_link(item, e_sym=None, d_sym=None):
@@ -226,6 +229,16 @@ def all_items():
             add("Polar(8,4)", "sc", md, "ideal", noise_var=nv)
             if md != "QAM16(gray=True,normalize=True)":
                 add("LDPC(6,3)", "minsum", md, "ideal", noise_var=nv)
+    # dense constellations: one 64-QAM symbol per block (n = 6), one 256-QAM symbol per block (n = 8) in the thorough tier
+    q64 = "QAM64(gray=True,normalize=True)"
+    add("SPC(5)", "wagner", q64, "ideal", noise_var=1.0)
+    add("Repetition(6)", "ml", q64, "ideal")
+    add("Repetition(6)", "ml", q64, "flips")
+    if TIER == "thorough":
+        add("LDPC(6,3)", "minsum", q64, "ideal", noise_var=1.0)
+        add("SPC(5)", "wagner", "QAM64(gray=False,normalize=False)", "ideal", noise_var=1.0)
+        add("SPC(7)", "wagner", "QAM256(gray=True,normalize=True)", "ideal", noise_var=1.0)
+        add("Polar(8,4)", "sc", "QAM256(gray=True,normalize=True)", "ideal", noise_var=1.0)
     # bounded symbol displacement on BPSK (d_min = 2: |d| < 1 per axis keeps every symbol in its own decision region)
     add("Hamming(7,4)", "syndrome", "BPSK", "displace", dlim=0.99)
     add("ExtHamming(8,4)", "ml", "QPSK(normalize=True)", "displace", dlim=0.7)
